@@ -103,10 +103,17 @@ func NewPMT(pmtBytes []byte) (PMT, error) {
 }
 
 func (p *pmt) parseTables(pmtBytes []byte) error {
-	sectionBytes := pmtBytes[1+PointerField(pmtBytes):]
+	start := 1 + int(PointerField(pmtBytes))
+	if len(pmtBytes) < start {
+		return gots.ErrPMTParse
+	}
+	sectionBytes := pmtBytes[start:]
 
 	for len(sectionBytes) > 2 && sectionBytes[0] != 0xFF {
 		tableLength := sectionLength(sectionBytes)
+		if len(sectionBytes) < 3+int(tableLength) {
+			return gots.ErrPMTParse
+		}
 
 		if tableID(sectionBytes) == 0x2 {
 			err := p.parsePMTSection(sectionBytes[0 : 3+tableLength])
@@ -126,6 +133,10 @@ func (p *pmt) parsePMTSection(pmtBytes []byte) error {
 	sectionLength := sectionLength(pmtBytes)
 
 	if len(pmtBytes) <= programInfoLengthOffset+1 {
+		return gots.ErrPMTParse
+	}
+	if sectionLength < pmtEsDescriptorStaticLen+CrcLen {
+		// too short to hold the fixed part and the CRC; the loop bound below would wrap
 		return gots.ErrPMTParse
 	}
 
